@@ -52,6 +52,13 @@ type c14Prog struct {
 	// other goroutines keep calling its methods
 	CloseAt    int
 	CloseWhich int
+	// RestartAt > 0: once this many calls have been made, one client closes its
+	// session and starts a new conversation (another id) from the same socket,
+	// while the goroutines keep calling methods of the session the listener had
+	// accepted for the old one (the listener replaces it when the first packet
+	// of the new conversation arrives)
+	RestartAt    int
+	RestartWhich int
 	// ReseedIn > 0: the process-wide entropy source is positioned this many
 	// draws before its periodic re-seeding
 	ReseedIn int
@@ -207,6 +214,7 @@ func c14Run(p c14Prog, pc *pairCounter) (calls int64) {
 	}
 	var sessions []*kcp.UDPSession
 	var conns []c14Sock
+	var pconns []net.PacketConn
 	var smu sync.Mutex
 	for i := 0; i < p.Clients; i++ {
 		a := &net.UDPAddr{IP: net.IPv4(127, 0, 1, byte(i+1)), Port: 8000 + i}
@@ -230,6 +238,7 @@ func c14Run(p c14Prog, pc *pairCounter) (calls int64) {
 		}
 		sessions = append(sessions, s)
 		conns = append(conns, c)
+		pconns = append(pconns, pc)
 	}
 	var wg sync.WaitGroup
 	stop := make(chan struct{})
@@ -336,6 +345,37 @@ func c14Run(p c14Prog, pc *pairCounter) (calls int64) {
 			x.Close()
 		}()
 	}
+	if p.RestartAt > 0 {
+		wg.Add(1)
+		go func() {
+			defer wg.Done()
+			for total.Load() < int64(p.RestartAt) {
+				select {
+				case <-stop:
+					return
+				case <-time.After(200 * time.Microsecond):
+				}
+			}
+			k := p.RestartWhich % p.Clients
+			smu.Lock()
+			old := sessions[k]
+			smu.Unlock()
+			old.Close()
+			fecC := p.FEC
+			if p.ClientNoFEC {
+				fecC = [2]int{}
+			}
+			s2, err := kcp.NewConn3(uint32(5000+k), laddr, blk(), fecC[0], fecC[1], pconns[k])
+			if err != nil {
+				return
+			}
+			s2.SetNoDelay(1, 10, 2, 1)
+			s2.Write([]byte("hello again"))
+			smu.Lock()
+			sessions = append(sessions, s2)
+			smu.Unlock()
+		}()
+	}
 	// traffic keeps flowing: a reader drains whatever arrives on every session
 	done := make(chan struct{})
 	go func() {
@@ -426,6 +466,10 @@ func TestC14Race(t *testing.T) {
 			p.CloseAt = 1 + rng.IntN(p.Goroutines*p.Calls)
 			p.CloseWhich = rng.IntN(4)
 		}
+		if rng.IntN(3) == 0 {
+			p.RestartAt = 1 + rng.IntN(p.Goroutines*p.Calls)
+			p.RestartWhich = rng.IntN(4)
+		}
 		// every third program starts a few packets before the shared entropy
 		// source re-seeds itself (once in 2^24 nonces - days of traffic)
 		if rng.IntN(3) == 0 {
@@ -443,7 +487,7 @@ func TestC14Race(t *testing.T) {
 		pc.mu.Unlock()
 		rec.Case(hx.Hash64(p), co > 0, "cipher_"+p.Cipher, fmt.Sprintf("fec_%v", p.FEC[0] > 0),
 			fmt.Sprintf("listener_socket_fails_during_calls_%v", p.FailListenerAt > 0), fmt.Sprintf("client_socket_fails_during_calls_%v", p.FailClientAt > 0),
-			fmt.Sprintf("close_fault_%d", p.CloseFault), fmt.Sprintf("real_udp_sockets_%v", p.RealUDP), fmt.Sprintf("close_while_methods_are_being_called_%v", p.CloseAt > 0), fmt.Sprintf("entropy_reseed_during_the_program_%v", p.ReseedIn > 0), fmt.Sprintf("fec_at_the_listener_only_%v", p.ClientNoFEC))
+			fmt.Sprintf("close_fault_%d", p.CloseFault), fmt.Sprintf("real_udp_sockets_%v", p.RealUDP), fmt.Sprintf("close_while_methods_are_being_called_%v", p.CloseAt > 0), fmt.Sprintf("entropy_reseed_during_the_program_%v", p.ReseedIn > 0), fmt.Sprintf("fec_at_the_listener_only_%v", p.ClientNoFEC), fmt.Sprintf("conversation_restarted_during_the_calls_%v", p.RestartAt > 0))
 		if rec.WantSample() {
 			rec.Sample(p)
 		}
